@@ -1,11 +1,5 @@
 package checks
 
-import (
-	"github.com/transparency-dev/witness/verifmc/ev"
-	"github.com/transparency-dev/witness/verifmc/uni"
-	"github.com/transparency-dev/witness/verifmc/wh"
-)
+import "github.com/transparency-dev/witness/verifmc/ev"
 
-func c03StorageFailures(run *ev.Run)                               { runFaults(run, "C03", "quick", true) }
-
-func c10EndToEnd(run *ev.Run, u *uni.U, gen *wh.CPGen, la, lb wh.LogCfg) {}
+func c03StorageFailures(run *ev.Run) { runFaults(run, "C03", "quick", true) }
